@@ -90,13 +90,6 @@ theorem len_write_inside (m : Img) (off : Nat) (bs : Array Nat) (H : Nat) (h : o
     (m.write off bs).len = m.len := by
   unfold Img.write; simp only; omega
 
-/-- an event that is either not a write or a write inside `[0, H)` of a file of length ≥ H -/
-def Ev.inHeader (e : Ev) (H : Nat) : Bool :=
-  match e with
-  | .pwrite off bs => decide (off + bs.size ≤ H)
-  | .store off bs => decide (off + bs.size ≤ H)
-  | e => !e.isWrite
-
 theorem apply_inHeader (m : Img) (e : Ev) (H : Nat) (h : e.inHeader H = true) (hl : H ≤ m.len) :
     (e.apply m).len = m.len ∧ ∀ i, H ≤ i → (e.apply m).get i = m.get i := by
   cases e with
@@ -161,5 +154,76 @@ theorem noWriteBetween_spec (t : Trace) (a b : Nat) (h : noWriteBetween t a b = 
     rw [List.getD_eq_getElem?_getD, he]; rfl
   simp only [h1, h2, decide_true, Bool.and_self, Bool.not_true, Bool.false_or, hg] at this
   simpa using this
+
+theorem onlyHeaderBetween_spec (t : Trace) (a b H : Nat) (h : onlyHeaderBetween t a b H = true) :
+    ∀ j e, a < j → j < b → t[j]? = some e → e.inHeader H = true := by
+  intro j e h1 h2 he
+  unfold onlyHeaderBetween at h
+  rw [List.all_eq_true] at h
+  have hj : j < t.length := by
+    rcases Nat.lt_or_ge j t.length with hh | hh
+    · exact hh
+    · rw [List.getElem?_eq_none hh] at he; cases he
+  have := h j (List.mem_range.mpr hj)
+  have hg : t.getD j .close = e := by
+    rw [List.getD_eq_getElem?_getD, he]; rfl
+  simp only [h1, h2, decide_true, Bool.and_self, Bool.not_true, Bool.false_or, hg] at this
+  exact this
+
+theorem nonwrite_inHeader (e : Ev) (H : Nat) (h : e.isWrite = false) : e.inHeader H = true := by
+  cases e <;> simp [Ev.isWrite] at h <;> simp [Ev.inHeader, Ev.isWrite]
+
+end KV.IO.Fs
+
+namespace KV.IO.Fs
+
+theorem getD_of_getElem? (t : Trace) (j : Nat) (e : Ev) (h : t[j]? = some e) : t.getD j .close = e := by
+  rw [List.getD_eq_getElem?_getD, h]; rfl
+
+theorem getD_of_none (t : Trace) (j : Nat) (h : t[j]? = none) : t.getD j .close = .close := by
+  rw [List.getD_eq_getElem?_getD, h]; rfl
+
+theorem verOKB_iff (t : Trace) (k s j : Nat) : verOKB t k s j = true ↔ VerOK t k s j := by
+  unfold verOKB VerOK
+  simp only [Bool.and_eq_true, decide_eq_true_eq, List.all_eq_true, List.mem_range, Bool.or_eq_true,
+    Bool.not_eq_true', Bool.and_eq_false_imp, decide_eq_false_iff_not]
+  constructor
+  · rintro ⟨hj, h⟩
+    refine ⟨hj, fun y hjy hyk e he => ?_⟩
+    rcases h y (by omega) with h1 | h1
+    · exact absurd hyk (h1 hjy)
+    · rw [getD_of_getElem? t _ e he] at h1; exact h1
+  · rintro ⟨hj, h⟩
+    refine ⟨hj, fun y _ => ?_⟩
+    by_cases hc : j < y ∧ y ≤ k
+    · right
+      cases he : t[y - 1]? with
+      | some e => rw [getD_of_getElem? t _ e he]; exact h y hc.1 hc.2 e he
+      | none => rw [getD_of_none t _ he]; rfl
+    · left; intro h1 h2; exact hc ⟨h1, h2⟩
+
+theorem lenOKB_iff (t : Trace) (k jl : Nat) : lenOKB t k jl = true ↔ LenOK t k jl := by
+  unfold lenOKB LenOK
+  simp only [Bool.and_eq_true, decide_eq_true_eq, List.all_eq_true, List.mem_range, Bool.or_eq_true,
+    Bool.not_eq_true', Bool.and_eq_false_imp, decide_eq_false_iff_not]
+  constructor
+  · rintro ⟨hj, h⟩
+    refine ⟨hj, fun y hjy hyk e he => ?_⟩
+    rcases h y (by omega) with h1 | h1
+    · exact absurd hyk (h1 hjy)
+    · rw [getD_of_getElem? t _ e he] at h1; exact h1
+  · rintro ⟨hj, h⟩
+    refine ⟨hj, fun y _ => ?_⟩
+    by_cases hc : jl < y ∧ y ≤ k
+    · right
+      cases he : t[y - 1]? with
+      | some e => rw [getD_of_getElem? t _ e he]; exact h y hc.1 hc.2 e he
+      | none => rw [getD_of_none t _ he]; rfl
+    · left; intro h1 h2; exact hc ⟨h1, h2⟩
+
+theorem crashImage_get (vols : Nat → Img) (jl : Nat) (choice : Nat → Nat) (i : Nat)
+    (hi : i < (vols jl).len) : (crashImage vols jl choice).get i = (vols (choice (i / kSector))).get i := by
+  unfold crashImage Img.get
+  simp only [hi, if_true]
 
 end KV.IO.Fs
